@@ -65,8 +65,13 @@ func genCase(formats bool) func(t *rapid.T) Case {
 			}
 		}
 		cfg := tv.Cfg{MaxDepth: rapid.IntRange(1, 4).Draw(t, "maxdepth"), Tags: true, Embedding: true, BigStructs: true, EscapeNames: true,
-			MapKeys: []string{"string", "string", "int", "int8", "int64", "uint", "uint8", "uint64", "float64", "int16", "uint32"},
-			TopStruct: rapid.IntRange(0, 3).Draw(t, "topstruct") != 0, LegacyString: legacy}
+			MapKeys:   []string{"string", "string", "int", "int8", "int64", "uint", "uint8", "uint64", "float64", "int16", "uint32"},
+			TopStruct: rapid.IntRange(0, 3).Draw(t, "topstruct") != 0, LegacyString: legacy,
+			EmbedPc: rapid.SampledFrom([]int{14, 14, 50, 80}).Draw(t, "embedpc")}
+		if cfg.EmbedPc >= 50 {
+			cfg.MaxDepth = rapid.IntRange(3, 6).Draw(t, "embeddepth")
+			cfg.MaxFields = 3
+		}
 		if formats {
 			cfg.Formats = true
 			cfg.TimeKinds = true
